@@ -730,6 +730,12 @@ def run(ctx):
                         sub = sub2
                 except Inconclusive:
                     pass
+        # "true iff …": the verdict is a function of the operands — the lazy operation evaluator (src/op/mod.rs) through
+        # which the three operators are run hands (data, operands) to the operator once and returns its result as a new
+        # value, with no exit of its own (a guard, a counter or a cache that can fail the operation by itself)
+        from .c04 import operator_receives_operand_list
+        r0_ = Roles(raw)
+        operator_receives_operand_list(ctx, raw, r0_, r0_.fn_of("all")[1].table, cfg, "K7")
         ctx.obls.extend(sub.obls)
         ctx.viol.extend(sub.viol)
         ctx.undecided.extend(sub.undecided)
